@@ -16,7 +16,7 @@ for pid in sorted(rules.PROPS):
         'evidence_file': 'evidence/%s.json' % pid,
         'replay_cmd_template': 'python3 vcheck.py --replay {path}',
         'engine': 'vlint+rules',
-        'level_claimed': {'category': 'other', 'text': c['text'], 'design_ref': 'DESIGN.md sections 3 and 4 (%s)' % pid},
+        'level_claimed': {'category': 'other', 'text': claims.full_text(pid, rules.PROPS[pid]), 'design_ref': 'DESIGN.md sections 3 and 4 (%s)' % pid},
         'level_note': c['note'],
         'technique': 'static analysis: custom rules (%s) over the type-checked clang AST and CFG of every instantiated function body' % ', '.join(rules.PROPS[pid]),
     })
